@@ -13,6 +13,9 @@ empty datagram) in the fixed world of `harness/c05rtp.py`:
 
 `rtpdispatch runo <rtx0> <hex>,…` — the same with the sender's RTX sequence number starting at `rtx0`.
 
+`rtpdispatch runpre <n> <rtx0> <hex>,…` — the first `n` datagrams arrive before the SRTP sessions exist (`hasSrtp = false`:
+during the DTLS handshake), the rest afterwards.  `rtpdispatch demux0 <hex>` → branch of `_recv_next` without SRTP session.
+
 Reply: `ok <trace>;<trace>;…`, one trace per datagram: the effects in program order joined with `+`
 (`-` when nothing happened), in the notation of `World.feed` of the harness.
 
@@ -128,6 +131,17 @@ def runWorld (t : Transport) : List Bytes → List String → List String
   | [], acc => acc.reverse
   | d :: rest, acc => let (t1, s) := stepWorld t d; runWorld t1 rest (s :: acc)
 
+/-- `runWorld` that also returns the final state. -/
+def runWorldSt (t : Transport) : List Bytes → List String → Transport × List String
+  | [], acc => (t, acc.reverse)
+  | d :: rest, acc => let (t1, s) := stepWorld t d; runWorldSt t1 rest (s :: acc)
+
+/-- The first `n` datagrams arrive while the SRTP sessions do not exist yet (`_do_handshake` reads them through the same
+`_recv_next`), the rest after `_setup_srtp`. -/
+def runWorldPre (t : Transport) (n : Nat) (ds : List Bytes) : List String :=
+  let (t1, out1) := runWorldSt { t with hasSrtp := false } (ds.take n) []
+  out1 ++ runWorld { t1 with hasSrtp := true } (ds.drop n) []
+
 def parseDatagrams? (s : String) : Option (List Bytes) := (s.splitOn ",").mapM parseHex?
 
 def showDemux : Demux → String
@@ -148,6 +162,12 @@ def handleTop : List String → String
   | ["runo", o, ds] => match parseInt? o, parseDatagrams? ds with
     | some o, some ds => "ok " ++ ";".intercalate (runWorld (worldAt o) ds [])
     | _, _ => "bad-op"
+  | ["runpre", n, o, ds] => match parseInt? n, parseInt? o, parseDatagrams? ds with
+    | some n, some o, some ds => "ok " ++ ";".intercalate (runWorldPre (worldAt o) n.toNat ds)
+    | _, _, _ => "bad-op"
+  | ["demux0", d] => match parseHex? d with
+    | some d => showDemux (demux false d)
+    | none => "bad-op"
   | ["demux", d] => match parseHex? d with
     | some d => showDemux (demux true d)
     | none => "bad-op"
